@@ -3,6 +3,8 @@ import CookModel.Lemmas.LexLaws
 import CookModel.Lemmas.SimBlocks
 import CookModel.Lemmas.SimEvents
 import CookModel.Lemmas.TrailingSpace
+import CookModel.Lemmas.SimEventsFull
+import CookModel.Lemmas.SimBlankLines
 /-
   C17  Line endings, comments and blank space do not change the recipe.
 
@@ -218,6 +220,171 @@ theorem C17_block_parser_offset_blind_partial {α : Type} [Arith α] (cs : CharS
     LRel (EvSim cs.uws) (runBlock cs ext oldStyle b' evs' p').1.toList (runBlock cs ext oldStyle b evs p).1.toList :=
   runBlock_rel hu hb hnm ext oldStyle he p' p
 
+/-- **CRLF at event level, every backslash-free body** (completes `C17_crlf_events_partial`: the
+    no-marker side condition is gone).  `EvSim uws e' e` relates parser events with the same
+    content and now also component events: `Ingredient`/`Cookware`/`Timer` with equal modifier
+    flags, equal intermediate-reference data, equal quantity values (numbers are computed from the
+    digits of `Int` tokens, text values are the trimmed text), scaling lock present on both sides or
+    on neither, and names, aliases, notes and units related by `TextSim` (same fragments up to
+    offsets, hence equal `text()`, `text_trimmed()`, `is_text_empty()`).  Diagnostics: same
+    severity, stage, kind and number of labels.  Spans are not compared (they shift).
+    Statement: for every character table with `CrlfSpec` and `UwsNL`, every extension set, both
+    values of the old-style-metadata flag, every body `s` without backslash, lexed at any two
+    offsets: the lexer, the block splitter and the block parsers (`parse_block`: metadata entries,
+    sections, text blocks, steps with ingredients, cookware, timers, quantities in regular and
+    advanced form, ranges, fractions, modifiers, intermediate references, aliases, notes, and all
+    their warnings and errors) produce for `crlf s` an event list of the same length as for `s`,
+    related event by event.  The panic flag is not compared (C03 proves it is never set).
+    Not part of this statement: the analysis pass on top of the events (that its result only
+    depends on what `EvSim` preserves is checked by the differential/oracle runs of C17). -/
+theorem C17_crlf_events {α : Type} [Arith α] (cs : CharSpec) (hcs : CrlfSpec cs) (hu : UwsNL cs)
+    (ext : Ext) (oldStyle : Bool) (s : List Char) (hs : CrlfSafe s) (off off' : Nat)
+    (acc' acc : Array (Ev α) × Option String) (he : LRel (EvSim cs.uws) acc'.1.toList acc.1.toList) :
+    LRel (EvSim cs.uws)
+      ((allBlocks ((lexFrom cs off' (crlf s)).length + 1) (lexFrom cs off' (crlf s))).foldl
+        (fun a b => runBlock cs ext oldStyle b a.1 a.2) acc').1.toList
+      ((allBlocks ((lexFrom cs off s).length + 1) (lexFrom cs off s)).foldl
+        (fun a b => runBlock cs ext oldStyle b a.1 a.2) acc).1.toList :=
+  crlf_eventsF cs hcs hu ext oldStyle s hs off off' he
+
+/-- **Front matter under CRLF conversion.**  For every character table in which CR and LF are
+    Unicode white space (what `trim_end`/`trim` use) and EVERY input `s` (no side condition):
+    `parse_frontmatter (crlf s)` finds front matter iff `parse_frontmatter s` does (same fence
+    lines: a line is `---` after `trim_end` before and after conversion; the lines in front of the
+    first fence are blank before and after), and then the YAML text of the converted input is the
+    converted YAML text and the recipe text after the closing fence is the converted recipe text
+    (`FmCrlf`).  Offsets differ. -/
+theorem C17_crlf_frontmatter (cs : CharSpec) (hu : UwsNL cs) (s : List Char) :
+    OptRel FmCrlf (parseFrontmatter cs (crlf s)) (parseFrontmatter cs s) := crlf_frontmatter cs hu s
+
+/-- the two readings of `OptRel FmCrlf`: front matter is found in both or in neither … -/
+theorem C17_crlf_frontmatter_iff (cs : CharSpec) (hu : UwsNL cs) (s : List Char) :
+    (parseFrontmatter cs (crlf s)).isSome = (parseFrontmatter cs s).isSome := by
+  have h := (crlf_frontmatter cs hu s).isNone
+  cases h1 : parseFrontmatter cs (crlf s) <;> cases h2 : parseFrontmatter cs s <;> simp [h1, h2] at h ⊢
+
+/-- … and if found, the texts are the converted texts -/
+theorem C17_crlf_frontmatter_texts (cs : CharSpec) (hu : UwsNL cs) (s : List Char) (fm : FrontMatter)
+    (h : parseFrontmatter cs s = some fm) :
+    ∃ fm', parseFrontmatter cs (crlf s) = some fm' ∧ fm'.yamlText = crlf fm.yamlText ∧
+      fm'.cookText = crlf fm.cookText := by
+  have hr := crlf_frontmatter cs hu s
+  rw [h] at hr
+  rcases hr.elim with ⟨_, e⟩ | ⟨fm', fm2, e', e, hf⟩
+  · cases e
+  · cases e
+    exact ⟨fm', e', hf.1, hf.2⟩
+
+/-- **CRLF conversion of a whole input** (completes `C17_crlf_pull_events_partial`: no marker
+    condition, front matter allowed).  For every backslash-free input `s` the `PullParser` run
+    (front-matter split, lexer, block splitter, block parsers) on `crlf s` yields as many events as
+    on `s`, related one by one by `EvSim`; the front-matter event, if any, carries the converted
+    YAML text (`FmTextCrlf` inside `EvSim`; the YAML parser itself is outside the model). -/
+theorem C17_crlf_pull_events {α : Type} [Arith α] (cs : CharSpec) (hcs : CrlfSpec cs) (hu : UwsNL cs)
+    (ext : Ext) (s : List Char) (hs : CrlfSafe s) :
+    LRel (EvSim cs.uws) (pullEvents (α := α) cs ext (crlf s)).1.toList (pullEvents (α := α) cs ext s).1.toList :=
+  crlf_pullEventsF cs hcs hu ext s hs
+
+/-- The parser law behind it (completes `C17_block_parser_offset_blind_partial`): for ANY two
+    blocks related token by token by `TokSim` (same kinds, same texts except comments, newline
+    tokens spelled `"\n"` or `"\r\n"` on either side, arbitrary offsets) `BlockParser`
+    (`parse_block` + `finish`) appends related events to related queues.  So every transformation
+    of the source that changes only offsets, newline spellings and comment texts of a block's
+    tokens leaves the parsed content of the block unchanged. -/
+theorem C17_block_parser_offset_blind {α : Type} [Arith α] (cs : CharSpec) (hu : UwsNL cs)
+    (b' b : List Tok) (hb : LRel TokSim b' b) (ext : Ext) (oldStyle : Bool)
+    (evs' evs : Array (Ev α)) (he : LRel (EvSim cs.uws) evs'.toList evs.toList) (p' p : Option String) :
+    LRel (EvSim cs.uws) (runBlock cs ext oldStyle b' evs' p').1.toList (runBlock cs ext oldStyle b evs p).1.toList :=
+  runBlock_relF hu hb ext oldStyle he p' p
+
+/-- the quantity sub-parser (`parse_quantity`, which runs on the tokens between the braces) on
+    related quantity tokens from related outer states: related quantity (equal value, lock on both
+    sides or neither, unit with the same content), related outer states afterwards -/
+theorem C17_parse_quantity_offset_blind {α : Type} [Arith α] (cs : CharSpec) (hu : UwsNL cs)
+    (ts' ts q' q : List Tok) (hq : LRel TokSim q' q) :
+    Rel (α := α) cs ts' ts (parseQuantity q') (parseQuantity q) (ParsedQSim cs.uws) := parseQuantity_rel hu hq
+
+/-- what `EvSim` guarantees about two ingredient events: everything the analysis reads except spans -/
+theorem C17_evSim_ingredient {α : Type} [Arith α] (cs : CharSpec) (i' i : Loc (PIngredient α))
+    (h : EvSim cs.uws (.ingredient i') (.ingredient i)) :
+    i'.val.modifiers.val = i.val.modifiers.val ∧ i'.val.name.trimmed cs = i.val.name.trimmed cs ∧
+    i'.val.alias.map (·.trimmed cs) = i.val.alias.map (·.trimmed cs) ∧
+    i'.val.note.map (·.trimmed cs) = i.val.note.map (·.trimmed cs) ∧
+    i'.val.inter.map (·.val) = i.val.inter.map (·.val) ∧
+    i'.val.quantity.map (fun q => (q.val.value.value.val, q.val.value.lock.isSome, q.val.unit.map (·.trimmed cs))) =
+      i.val.quantity.map (fun q => (q.val.value.value.val, q.val.value.lock.isSome, q.val.unit.map (·.trimmed cs))) := by
+  unfold EvSim at h
+  obtain ⟨h1, h2, h3, h4, h5, h6⟩ := h
+  have hopt : ∀ {a' a : Option Text}, OptRel (TextSim cs.uws) a' a →
+      a'.map (·.trimmed cs) = a.map (·.trimmed cs) := by
+    intro a' a hr
+    rcases hr.elim with ⟨rfl, rfl⟩ | ⟨x', x, rfl, rfl, hx⟩
+    · rfl
+    · simp [hx.trimmed]
+  refine ⟨h1, h3.trimmed, hopt h4, hopt h6, ?_, ?_⟩
+  · rcases h2.elim with ⟨e', e⟩ | ⟨x', x, e', e, hx⟩
+    · rw [e', e]
+    · rw [e', e]; simp only [Option.map_some]; exact congrArg some hx
+  · rcases h5.elim with ⟨e', e⟩ | ⟨x', x, e', e, hx⟩
+    · rw [e', e]
+    · rw [e', e]
+      obtain ⟨⟨hv, hl⟩, hunit⟩ := hx
+      simp only [Option.map_some, hv, hl, hopt hunit]
+
+/-- **Extra blank / comment-only lines between blocks (token level).**  `IsLine l`: `l` is a run of
+    tokens without a newline token, closed by a newline token.  `EmptyLine E`: a complete line of
+    whitespace / comment tokens only — what a blank line and a comment-only line (`-- …`, `[- … -]`)
+    lex to.  `blocksOf ts` = the blocks `PullParser::next_block` cuts from `ts`
+    (`allBlocks (ts.length + 1) ts`).  Statement: let the stream consist of complete lines `L`, an
+    empty line `E0`, and any rest `X`; inserting a further empty line `E` directly after `E0`
+    yields the same list of blocks as the stream `Y` without it, block by block and token by token
+    up to any kind-preserving relation `R` between the stream behind the insertion (whose byte
+    offsets shift) and the original stream `Y`.  So blank-line skipping, the end of a multi-line
+    block at an empty line, single-line (`>>`, `=`) detection and trailing-newline trimming are all
+    blind to repeated empty lines. -/
+theorem C17_extra_blank_lines_blocks (R : Tok → Tok → Prop) (hR : ∀ a b, R a b → a.kind = b.kind)
+    (L : List (List Tok)) (hL : ∀ l ∈ L, IsLine l) (E0 E X : List Tok)
+    (hE0 : EmptyLine E0) (hE : EmptyLine E) (Y : List Tok) (hY : LRel R (L.flatten ++ (E0 ++ X)) Y) :
+    LRel (LRel R) (blocksOf (L.flatten ++ (E0 ++ (E ++ X)))) (blocksOf Y) :=
+  blocks_extra_empty_line_rel hR L hL E0 E X hE0 hE Y hY
+
+/-- the same with identical tokens: literally the same blocks -/
+theorem C17_extra_blank_lines_blocks_eq (L : List (List Tok)) (hL : ∀ l ∈ L, IsLine l) (E0 E X : List Tok)
+    (hE0 : EmptyLine E0) (hE : EmptyLine E) :
+    blocksOf (L.flatten ++ (E0 ++ (E ++ X))) = blocksOf (L.flatten ++ (E0 ++ X)) :=
+  blocks_extra_empty_line L hL E0 E X hE0 hE
+
+/-- an extra empty line at the very start of the recipe body: the same blocks -/
+theorem C17_leading_blank_line_blocks (R : Tok → Tok → Prop) (hR : ∀ a b, R a b → a.kind = b.kind)
+    (E X : List Tok) (hE : EmptyLine E) (Y : List Tok) (hY : LRel R X Y) :
+    LRel (LRel R) (blocksOf (E ++ X)) (blocksOf Y) :=
+  blocks_leading_empty_line_rel hR E X hE Y hY
+
+/-- **Extra blank / comment-only line in the source text.**  Source `u e0 x` with `u` lexing to
+    complete lines, `e0` a blank or comment-only line (lexes to an empty line); inserting a further
+    blank or comment-only line `e` after `e0`: the lexer restarts after every newline token
+    (`lexFrom_append_nl`), so the token stream of `u e0 e x` is that of `u e0 x` with the tokens of `e`
+    inserted and the tokens of `x` shifted, and `next_block` cuts the same blocks: same number of
+    blocks, corresponding blocks token by token with the same kind and text (`SameKT`). -/
+theorem C17_extra_blank_line_source (cs : CharSpec) (u e0 e x : List Char) (L : List (List Tok))
+    (hu : lex cs u = L.flatten) (hL : ∀ l ∈ L, IsLine l)
+    (hE0 : EmptyLine (lexFrom cs (utf8Len u) e0))
+    (hE : EmptyLine (lexFrom cs (utf8Len u + utf8Len e0) e)) :
+    LRel (LRel SameKT) (blocksOf (lex cs (u ++ (e0 ++ (e ++ x))))) (blocksOf (lex cs (u ++ (e0 ++ x)))) :=
+  blocks_extra_blank_line_source cs u e0 e x L hu hL hE0 hE
+
+/-- **… and the same events.**  With `R := TokSim` (same kinds and texts, offsets free): the block
+    parsers run over the blocks of the stream with the extra empty line emit events related by
+    `EvSim` (same content, spans shifted) to those of the original stream. -/
+theorem C17_extra_blank_lines_events {α : Type} [Arith α] (cs : CharSpec) (hu : UwsNL cs) (ext : Ext) (oldStyle : Bool)
+    (L : List (List Tok)) (hL : ∀ l ∈ L, IsLine l) (E0 E X : List Tok)
+    (hE0 : EmptyLine E0) (hE : EmptyLine E) (Y : List Tok) (hY : LRel TokSim (L.flatten ++ (E0 ++ X)) Y)
+    (acc' acc : Array (Ev α) × Option String) (he : LRel (EvSim cs.uws) acc'.1.toList acc.1.toList) :
+    LRel (EvSim cs.uws)
+      ((blocksOf (L.flatten ++ (E0 ++ (E ++ X)))).foldl (fun a b => runBlock cs ext oldStyle b a.1 a.2) acc').1.toList
+      ((blocksOf Y).foldl (fun a b => runBlock cs ext oldStyle b a.1 a.2) acc).1.toList :=
+  foldl_runBlock_relF hu ext oldStyle (blocks_extra_empty_line_rel tokSim_kindPres L hL E0 E X hE0 hE Y hY) he
+
 /-! non-vacuity: a character table satisfying `CrlfSpec`, an input satisfying `CrlfSafe` on which
     `crlf` does something, and the excluded shape -/
 
@@ -256,5 +423,34 @@ example : (buildText 0 [⟨.word, ['a'], 0⟩, ⟨.newline, ['\n'], 1⟩, ⟨.wo
     = ['a', ' ', 'b'] := by decide
 example : (buildText 0 [⟨.word, ['a'], 0⟩, ⟨.ws, [' ', '\t'], 1⟩]).trimmed toyCharSpec = ['a'] := by decide
 example : toyCharSpec.uws ' ' = true := by decide
+
+/-! non-vacuity for the full event-level theorems: a recipe with front matter, an ingredient with
+    a quantity spanning a line break, cookware and a timer -/
+example : CrlfSafe "---\ntitle: x\n---\nAdd @salt{1\n%g} to #pot and wait ~{5%min}.\n".toList := by decide
+example : (parseFrontmatter toyCharSpec "---\ntitle: x\n---\nAdd @salt{1%g}\n".toList).isSome = true := by decide
+example : (parseFrontmatter toyCharSpec (crlf "---\ntitle: x\n---\nAdd @salt{1%g}\n".toList)).isSome = true := by decide
+example : ((parseFrontmatter toyCharSpec (crlf "---\ntitle: x\n---\nAdd @salt{1%g}\n".toList)).map (·.yamlText)) =
+    some "title: x\r\n".toList := by decide
+
+/-! non-vacuity for the blank-line laws: the tokens of `a\n`, of a blank line and of a comment-only line -/
+example : IsLine [⟨.word, ['a'], 0⟩, ⟨.newline, ['\n'], 1⟩] :=
+  ⟨[⟨.word, ['a'], 0⟩], ⟨.newline, ['\n'], 1⟩, rfl, by decide, rfl⟩
+example : EmptyLine [⟨.ws, [' '], 2⟩, ⟨.newline, ['\n'], 3⟩] :=
+  ⟨⟨[⟨.ws, [' '], 2⟩], ⟨.newline, ['\n'], 3⟩, rfl, by decide, rfl⟩, by decide⟩
+example : EmptyLine [⟨.lineComment, ['-', '-', 'x'], 4⟩, ⟨.newline, ['\n'], 7⟩] :=
+  ⟨⟨[⟨.lineComment, ['-', '-', 'x'], 4⟩], ⟨.newline, ['\n'], 7⟩, rfl, by decide, rfl⟩, by decide⟩
+/-- "a\n \nb" and "a\n \n--x\nb": one block `a`, one block `b` either way -/
+example : (blocksOf ([⟨.word, ['a'], 0⟩, ⟨.newline, ['\n'], 1⟩] ++ ([⟨.ws, [' '], 2⟩, ⟨.newline, ['\n'], 3⟩] ++
+    ([⟨.lineComment, ['-', '-', 'x'], 4⟩, ⟨.newline, ['\n'], 7⟩] ++ [⟨.word, ['b'], 8⟩])))).length = 2 := by decide
+
+/-- the source-level hypotheses on "a\n" / "\n" / "--x\n" -/
+example : lex toyCharSpec ['a', '\n'] = [[⟨.word, ['a'], 0⟩, ⟨.newline, ['\n'], 1⟩]].flatten := by
+  simp [lex, lexFrom_cons, lexOne, singleKind, singleTable, toyCharSpec, isAsciiDigit, lexFrom, utf8Len]
+  decide
+example : lexFrom toyCharSpec 2 ['\n'] = [⟨.newline, ['\n'], 2⟩] := by
+  simp [lexFrom_cons, lexOne, lexFrom]
+example : lexFrom toyCharSpec 3 ['-', '-', 'x', '\n'] = [⟨.lineComment, ['-', '-', 'x'], 3⟩, ⟨.newline, ['\n'], 6⟩] := by
+  simp [lexFrom_cons, lexOne, lexFrom, utf8Len]
+  decide
 
 end Cook
